@@ -125,6 +125,22 @@ def c10_hertz(p: int, si: int, di: int) -> bool:
     return int(back) == p
 
 
+def c10_hertz_spelled(ni: int, o: int, si: int) -> bool:
+    """the Hz form depends on the pitch number only: every spelling of a pitch 0..127 converts to the frequency of
+    that pitch number and reads back as the same pitch"""
+    name = pick(NAMES35, ni)
+    o = enum(o, 0, 11)
+    sp = pick(STD, si)
+    n = Note(name, o)
+    p = 12 * o + NAT[name[0]] + net(name)
+    assume(0 <= p <= 127)
+    hz = n.to_hertz(sp)
+    ref = Note(p).to_hertz(sp)
+    if abs(hz - ref) > 1e-9 * ref:
+        return False
+    return int(Note().from_hertz(hz, sp)) == p
+
+
 def c10_octave_floor(o: int, d: int) -> bool:
     n = Note("C", o)
     n.change_octave(d)
@@ -152,5 +168,6 @@ def claims(tier):
     cl.append(Claim("helmholtz_double", c10_helmholtz, pre=[lambda name, o: spelled(name, 2) and len(name) == 3 and name[1] == name[2] and 0 <= o <= 9], timeout=900 if q else 3000, bounds="name = letter + ## or bb (symbolic); octave 0..9 (enumerated)"))
     for si in range(len(STD) if not q else 2):
         cl.append(Claim("hertz[std=%s]" % STD[si], c10_hertz, params={"si": si}, group="c10_hertz", pre=[lambda p, si, di: 0 <= p <= 115 and si == P["si"] and 0 <= di < len(DETUNE)], timeout=900, bounds="note 0..115 (+12 for the octave clause, i.e. 0..127) x standard pitch %s x detune %r cents; concrete doubles (enumerated)" % (STD[si], DETUNE)))
+    cl.append(Claim("hertz_spelled", c10_hertz_spelled, pre=[lambda ni, o, si: 0 <= ni < 35 and 0 <= o <= 10 and 0 <= si < (2 if q else len(STD))], timeout=900, bounds="35 spellings (<=2 accidentals) x octave 0..10 with pitch in 0..127 x %d standard pitches; concrete doubles (enumerated)" % (2 if q else len(STD))))
     cl.append(Claim("octave_floor", c10_octave_floor, pre=[lambda o: 0 <= o], timeout=300, bounds="octave >= 0 and diff: every integer (unbounded, symbolic)"))
     return cl
